@@ -223,7 +223,11 @@ func HandleMessages(startTime time.Time, reader io.Reader, writer io.Writer, con
 	writer.Write([]byte("18 seconds ahead of UTC\n\n"))
 
 	messageChan := make(chan rtcm.Message, 2)
-	go DisplayMessages(messageChan, writer)
+	done := make(chan struct{})
+	go func() {
+		defer close(done)
+		DisplayMessages(messageChan, writer)
+	}()
 
 	channels := make([]chan rtcm.Message, 0)
 	channels = append(channels, messageChan)
@@ -231,6 +235,9 @@ func HandleMessages(startTime time.Time, reader io.Reader, writer io.Writer, con
 	appCore.HandleMessagesUntilEOF(startTime, bufferedReader)
 
 	close(messageChan)
+
+	// Wait until everything has been written.
+	<-done
 }
 
 // DisplayMessages receives messages from the given channel, produces a
